@@ -43,12 +43,25 @@ class Scenario(object):
         """A world in the scenario's initial state, made of fresh objects.  The initial state is built by
         the real initialisation path once per process and kept as a pickle; every later call unpickles
         that snapshot (new plugin/state/printer objects, nothing shared between worlds)."""
+        if self.replay_mode():
+            # the implementation keeps state that cannot be copied (functools.lru_cache contents): no snapshots, every
+            # world is built by the real initialisation path after that state has been cleared
+            self.world_cls.reset_process_state()
+            return self.world_cls(self.cfg)
         if build or self._init_pid != os.getpid():
             w = self.world_cls(self.cfg)
             self._init_snap = w.snapshot()
             self._init_pid = os.getpid()
             return w
         return self.world_cls.restore(self._init_snap, self.cfg)
+
+
+def _replay_mode(self):
+    f = getattr(self.world_cls, "needs_replay", None)
+    return bool(f and f())
+
+
+Scenario.replay_mode = _replay_mode
 
 
 class Result(object):
@@ -122,10 +135,16 @@ def _expand_one(scn, hist):
     except Violation as v:
         raise HarnessError("divergent replay: prefix %r of scenario %s now violates: %s"
                            % (hist, scn.name, v.msg))
-    snap = w.snapshot()
+    replaying = scn.replay_mode()
+    snap = None if replaying else w.snapshot()
     succ = []
     for ei in w.enabled(scn.menu):
-        w2 = scn.world_cls.restore(snap, scn.cfg)
+        if replaying:
+            w2 = scn.fresh()
+            for e in hist:
+                w2.step(scn.menu[e])
+        else:
+            w2 = scn.world_cls.restore(snap, scn.cfg)
         try:
             st = w2.step(scn.menu[ei])
         except Violation as v:
@@ -158,7 +177,11 @@ def _expand(task):
                 # times, object identities); that is not an abstraction error -- de-duplication is merely
                 # ineffective for such states -- and the verdicts (behavioural monitors) do not depend on it
                 # (several samples: run-dependent values of low resolution, e.g. elapsed times, collide now and then)
-                if any(a != _sig(_expand_one(scn, rep)) for _ in range(3)):
+                if scn.replay_mode():
+                    # state that cannot be read (lru_cache contents) is not in the key: merged states may differ; the
+                    # exploration is then an under-approximation (violations found are real, each is replayed from scratch)
+                    bad.append(("opaque", rep))
+                elif any(a != _sig(_expand_one(scn, rep)) for _ in range(3)):
                     bad.append(("unstable", rep))
                 else:
                     bad.append((rep, dup))
@@ -219,9 +242,12 @@ def explore(si, seed=0, shadow_every=0, progress=None, want_samples=4):
             res.shadow_checked += npairs
             res.replayed += 2 * npairs
             unstable = [b for b in bad if b[0] == "unstable"]
-            bad = [b for b in bad if b[0] != "unstable"]
+            opaque = [b for b in bad if b[0] == "opaque"]
+            bad = [b for b in bad if b[0] not in ("unstable", "opaque")]
             if unstable:
                 res.tags["NONDETERMINISTIC-STATE"] = res.tags.get("NONDETERMINISTIC-STATE", 0) + len(unstable)
+            if opaque:
+                res.tags["UNCOPYABLE-STATE-MERGED"] = res.tags.get("UNCOPYABLE-STATE-MERGED", 0) + len(opaque)
             if bad:
                 raise HarnessError("ABSTRACTION-UNSOUND: scenario %s: histories %r and %r have equal keys "
                                    "but different successors" % (scn.name, bad[0][0], bad[0][1]))
